@@ -152,6 +152,20 @@ class ViewArr(Arr):
 
     def index(self, ex, idx, line):
         items = _index_list(ex, idx)
+        if items and items[0][0] == 's' and all(r[0] == 's' and r[1] is None and r[2] is None for r in items[1:]):
+            # slice of a view along its first axis: compose the offsets
+            _, lo, hi = items[0]
+            n = to_term(self.shape[0])
+            lo_t = to_term(lo) if lo is not None else tm.mk_int(0)
+            hi_t = to_term(hi) if hi is not None else n
+            if isinstance(lo, int) and lo < 0:
+                lo_t = tm.add(n, tm.mk_int(lo))
+            if isinstance(hi, int) and hi < 0:
+                hi_t = tm.add(n, tm.mk_int(hi))
+            ex.oblige('bounds', tm.and_(tm.le(tm.mk_int(0), lo_t), tm.le(lo_t, hi_t), tm.le(hi_t, n)), label=self.name, line=line,
+                      note='slice bounds within the view')
+            off = lo_t if self.offset is None else tm.add(self.offset, lo_t)
+            return ViewArr(self.parent, self.fixed, off, tm.sub(hi_t, lo_t))
         if not all(k == 'i' for (k, *_) in items) or len(items) != len(self.shape):
             raise Unsupported('partial indexing of a view (line %s)' % line)
         full = self._full(ex, [i for (_, i) in items], line)
